@@ -111,3 +111,254 @@ def normalize(tree: ast.AST) -> int:
                 if again:
                     break
     return n
+
+
+# ---------------------------------------------------------------------------------------------------------------------
+# Extract-method tolerance: helpers that did not exist in the tree the rules were confirmed on are read in place.
+#
+# A maintainer who moves a few statements of an analysed function into a new private helper (`self._resolve(fut, y)`)
+# has changed no behaviour; the rules, which look at one function at a time, would see events disappear.  A call of a
+# function that is *new* (its qualified name is not in the reference list of anchors.json) is therefore replaced, in the
+# syntax tree the rules see, by the helper's body with the parameters substituted -- provided the helper is simple enough
+# for that to be exact: plain positional/keyword parameters, no generator, no nested scopes that capture its locals, and
+# `return` only as the last statement.  Anything else is left as a call.
+
+
+def _assigned_names(node):
+    out = set()
+    for n in ast.walk(node):
+        if isinstance(n, ast.Name) and isinstance(n.ctx, (ast.Store, ast.Del)):
+            out.add(n.id)
+        elif isinstance(n, ast.ExceptHandler) and n.name:
+            out.add(n.name)
+        elif isinstance(n, (ast.FunctionDef, ast.AsyncFunctionDef, ast.ClassDef)):
+            out.add(n.name)
+        elif isinstance(n, ast.arg):
+            out.add(n.arg)
+    return out
+
+
+def _simple_helper(h):
+    """None if the helper can be inlined exactly, else the reason it cannot"""
+    a = h.args
+    if h.decorator_list:
+        return 'decorated'
+    if a.vararg or a.kwarg:
+        return 'star parameters'
+    body = list(h.body)
+    if body and isinstance(body[0], ast.Expr) and isinstance(body[0].value, ast.Constant) and isinstance(body[0].value.value, str):
+        body = body[1:]
+    if not body:
+        return 'empty'
+    for n in ast.walk(h):
+        if isinstance(n, (ast.Yield, ast.YieldFrom, ast.Global, ast.Nonlocal)):
+            return 'generator / global'
+        if n is not h and isinstance(n, (ast.FunctionDef, ast.AsyncFunctionDef, ast.Lambda, ast.ClassDef)):
+            return 'nested scope'
+    rets = [n for st in body for n in ast.walk(st) if isinstance(n, ast.Return)]
+    if any(r is not body[-1] for r in rets):
+        return 'early return'
+    return None
+
+
+class _Subst(ast.NodeTransformer):
+    def __init__(self, mapping):
+        self.mapping = mapping
+
+    def visit_Name(self, node):
+        rep = self.mapping.get(node.id)
+        if rep is None:
+            return node
+        if isinstance(rep, str):
+            return ast.copy_location(ast.Name(id=rep, ctx=node.ctx), node)
+        if isinstance(node.ctx, ast.Load):
+            import copy
+
+            return ast.copy_location(copy.deepcopy(rep), node)
+        return node
+
+    def visit_ExceptHandler(self, node):
+        self.generic_visit(node)
+        if node.name and isinstance(self.mapping.get(node.name), str):
+            node.name = self.mapping[node.name]
+        return node
+
+
+def _first_use_is_load(stmts, name, after_line=None):
+    """walking the statements in source order, is the first occurrence of `name` a read?"""
+    occ = []
+    for st in stmts:
+        for n in ast.walk(st):
+            if isinstance(n, ast.Name) and n.id == name and (after_line is None or n.lineno > after_line):
+                occ.append((n.lineno, n.col_offset, isinstance(n.ctx, ast.Load)))
+    if not occ:
+        return False
+    occ.sort()
+    # an assignment `x = f(x)` has the Load later on the same line as the Store: order by statement semantics
+    first_line = occ[0][0]
+    same = [o for o in occ if o[0] == first_line]
+    if any(not o[2] for o in same) and any(o[2] for o in same):
+        return True  # read and written in the same statement: the read comes first
+    return occ[0][2]
+
+
+def _inline_call(call, h, is_method, F, stmt, enclosing_loops, tag):
+    """(statements replacing `stmt`, result expression | None) or None when the call cannot be mapped exactly"""
+    import copy
+
+    a = h.args
+    params = [x.arg for x in a.posonlyargs + a.args]
+    kwonly = [x.arg for x in a.kwonlyargs]
+    if is_method:
+        params = params[1:]
+    if any(isinstance(x, ast.Starred) for x in call.args) or any(k.arg is None for k in call.keywords):
+        return None
+    if len(call.args) > len(params):
+        return None
+    bound = dict(zip(params, call.args))
+    for k in call.keywords:
+        if k.arg in bound or k.arg not in params + kwonly:
+            return None
+        bound[k.arg] = k.value
+    defaults = dict(zip(params[len(params) - len(a.defaults):] if a.defaults else [], a.defaults))
+    for x, d in zip(a.kwonlyargs, a.kw_defaults):
+        if d is not None:
+            defaults[x.arg] = d
+    for p in params + kwonly:
+        if p not in bound:
+            if p not in defaults:
+                return None
+            bound[p] = defaults[p]
+    body = list(h.body)
+    if body and isinstance(body[0], ast.Expr) and isinstance(body[0].value, ast.Constant) and isinstance(body[0].value.value, str):
+        body = body[1:]
+    body = copy.deepcopy(body)
+    assigned = set()
+    for st in body:
+        assigned |= _assigned_names(st)
+    caller_names = {n.id for n in ast.walk(F) if isinstance(n, ast.Name)} | _assigned_names(F)
+    mapping = {}
+    pre = []
+    for p, arg in bound.items():
+        reassigned = p in assigned
+        simple = isinstance(arg, (ast.Name, ast.Constant)) or (isinstance(arg, ast.Attribute) and isinstance(arg.value, ast.Name))
+        if simple and not reassigned:
+            mapping[p] = arg
+            continue
+        if isinstance(arg, ast.Name) and reassigned:
+            # the helper re-binds its parameter: harmless for the caller only if the caller's variable is dead afterwards
+            live = _first_use_is_load([s for s in ast.walk(F) if isinstance(s, ast.stmt)], arg.id, after_line=getattr(stmt, 'end_lineno', stmt.lineno))
+            for L in enclosing_loops:
+                if _first_use_is_load(L.body, arg.id):
+                    live = True
+            if not live:
+                mapping[p] = arg.id
+                continue
+        fresh = f'{p}__{tag}'
+        mapping[p] = fresh
+        asg = ast.Assign(targets=[ast.Name(id=fresh, ctx=ast.Store())], value=copy.deepcopy(arg), type_comment=None)
+        pre.append(ast.copy_location(asg, stmt))
+    for nm in assigned:
+        if nm in params or nm in kwonly:
+            continue
+        if nm in caller_names:
+            mapping[nm] = f'{nm}__{tag}'
+    sub = _Subst(mapping)
+    new_body = [sub.visit(st) for st in body]
+    result = None
+    if new_body and isinstance(new_body[-1], ast.Return):
+        r = new_body.pop()
+        result = r.value
+    out = pre + new_body
+    for st in out:
+        ast.fix_missing_locations(st)
+    return out, result
+
+
+def inline_new_helpers(module, reference_names: set) -> list:
+    """Inline calls of functions that are not in `reference_names` (qualified names of the confirmed tree) into the
+    functions that are.  Returns [(caller qualname, helper qualname, line)]."""
+    done = []
+    funcs = module.functions
+    new_helpers = {q: f for q, f in funcs.items() if q not in reference_names and '#' not in q}
+    if not new_helpers:
+        return done
+    reasons = {q: _simple_helper(f.node) for q, f in new_helpers.items()}
+
+    def owner_class(fi):
+        p = fi
+        while p is not None and hasattr(p, 'cls'):  # FuncInfo
+            if p.cls is not None:
+                return p.cls
+            p = p.parent
+        return None
+
+    def resolve(call, fi):
+        """(helper FuncInfo | None, is_method) for `self._h(...)` / `_h(...)`"""
+        fn = call.func
+        if isinstance(fn, ast.Attribute) and isinstance(fn.value, ast.Name) and fn.value.id == 'self':
+            c = owner_class(fi)
+            if c is None:
+                return None, False
+            return new_helpers.get(f'{c.qualname}.{fn.attr}'), True
+        if isinstance(fn, ast.Name):
+            cands = [f'{fi.qualname}.{fn.id}']
+            par = fi.parent
+            if par is not None and hasattr(par, 'cls'):  # nested in a function: a sibling nested function
+                cands.append(f'{par.qualname}.{fn.id}')
+            cands.append(fn.id)  # module level
+            for q in cands:
+                if q in new_helpers:
+                    return new_helpers[q], False
+        return None, False
+
+    counter = [0]
+
+    def process_block(block, fi, loops):
+        i = 0
+        while i < len(block):
+            st = block[i]
+            call = None
+            form = None
+            if isinstance(st, ast.Expr):
+                v = st.value.value if isinstance(st.value, ast.Await) else st.value
+                if isinstance(v, ast.Call):
+                    call, form = v, 'expr'
+            elif isinstance(st, ast.Assign) and len(st.targets) == 1:
+                v = st.value.value if isinstance(st.value, ast.Await) else st.value
+                if isinstance(v, ast.Call):
+                    call, form = v, 'assign'
+            if call is not None:
+                h, is_method = resolve(call, fi)
+                if h is not None and h is not fi and reasons.get(h.qualname) is None and (not h.is_async or isinstance(st.value, ast.Await)) and (h.is_async or not isinstance(st.value, ast.Await)):
+                    counter[0] += 1
+                    got = _inline_call(call, h.node, is_method, fi.node, st, loops, f'{h.name.strip("_")}{counter[0]}')
+                    if got is not None:
+                        stmts, result = got
+                        if form == 'assign':
+                            val = result if result is not None else ast.Constant(value=None)
+                            asg = ast.Assign(targets=st.targets, value=val, type_comment=None)
+                            stmts = stmts + [ast.fix_missing_locations(ast.copy_location(asg, st))]
+                        elif result is not None and not isinstance(result, (ast.Name, ast.Constant)):
+                            stmts = stmts + [ast.fix_missing_locations(ast.copy_location(ast.Expr(value=result), st))]
+                        if not stmts:
+                            stmts = [ast.copy_location(ast.Pass(), st)]
+                        block[i:i + 1] = stmts
+                        done.append((fi.qualname, h.qualname, st.lineno))
+                        continue  # re-examine the inlined statements (helpers calling helpers), bounded by the counter
+            # recurse into compound statements
+            if counter[0] < 200:
+                inner_loops = loops + [st] if isinstance(st, (ast.For, ast.AsyncFor, ast.While)) else loops
+                for fld in ('body', 'orelse', 'finalbody'):
+                    blk = getattr(st, fld, None)
+                    if isinstance(blk, list) and blk and isinstance(blk[0], ast.stmt) and not isinstance(st, (ast.FunctionDef, ast.AsyncFunctionDef, ast.ClassDef)):
+                        process_block(blk, fi, inner_loops)
+                for hd in getattr(st, 'handlers', []) or []:
+                    process_block(hd.body, fi, inner_loops)
+            i += 1
+
+    for q, fi in list(funcs.items()):
+        if q in new_helpers:
+            continue
+        process_block(fi.node.body, fi, [])
+    return done
